@@ -10,7 +10,8 @@ TEXT = {
  "C01": {"level": "Proved (S): Angle::new establishes the reachable-state invariant (finite remainder in [0, pi/2 - 1e-10]) for |p|<=1e200, |d|>=1e-200, "
                   "|p*pi/d|<=2^42 - incl. the negative path and the blade/fmod reconciliation of the repaired code; new_with_blade, new_from_cartesian; "
                   "every angle operation preserves it; history theorem by induction over any operation sequence; sum and product magnitudes finite and "
-                  "non-negative in every branch (never NaN). Proved (G): the panics of inv/div/normalize/invert_circle occur exactly when the tested "
+                  "non-negative in every branch (never NaN); the angle of a+b is canonical in every branch incl. the atan2 re-encoding (blade sums to 2^39), "
+                  "likewise a-b, geo, reject, Angle/f64, pow, scale_rotate, dot, wedge, project, reflect, cos, sin. Proved (G): the panics of inv/div/normalize/invert_circle occur exactly when the tested "
                   "magnitude compares equal to 0. Partial: constructor domain is bounded by 1e200 (p*pi overflows beyond 5.7e307).",
          "note": S_NOTE},
  "C02": {"level": "Proved (S): exact quarter turns new(k,2)=(k blades, rem 0.0) for all k<2^53 and create_dimension; constant table (0, pi/2, pi, 3pi/2, -pi/2, 4pi); "
